@@ -3,6 +3,10 @@
 import json, sys
 
 CLAIMED = {
+ "C06": ("3/C06", "seeded search over view-heavy DAGs under several contribution schedules (which consumer delivers gradient to the base first) followed by read schedules (order/repetition of .grad reads, drops, GC); every view's gradient compared bit-exactly with the NumPy view chain applied to base.grad, memory sharing checked, pairwise grad aliasing vs data aliasing",
+         "trusts: the model's flat-index description of each view (obtained by running the same NumPy call on an index array); only views that were family members before the backward call are judged"),
+ "C09": ("3/C09", "seeded search over histories with a shared trunk and several terminals, with backward/clear_graph, in-place updates, re-use and null_grad interleaved before a final backward; outcome must be InvalidBackprop or gradients equal to the tape's cotangents on the versions recorded by the forward pass",
+         "trusts: the version tape (M2) as the definition of 'the forward computation as it was recorded'; views are judged through their bases; known findings (stale re-routing after clear) listed in known_findings.json"),
  "C01": ("3/C01", "seeded search over random dataflow DAGs, each executed under 2-4 schedules (linear extensions, swapped commutative operands, bystander graphs, early drops, GC); every gradient compared with an independent functional reference tape (exact for integer-valued exact-op runs) and across schedules",
          "trusts: the tape's hand-written VJPs (self-validated against central finite differences on a 1/8 sample; disagreement = HARNESS-ERROR); points where the derivative does not exist are detected by the tape and excluded; float tolerance policy of DESIGN 2.6"),
  "C04": ("3/C04", "seeded search over epoch histories of view creation / non-view ops / in-place updates (setitem, augmented assignment, ufunc out=/where=, .shape=) on any member of a view family, compared after every statement with NumPy shadow arrays executing the same statements (values, dtype, shape, pairwise memory sharing, .base, object identity, constant flag); failing statements, GC pre-emption and id reuse in separate lanes",
